@@ -1,16 +1,15 @@
 CONSTANTS
   Descs <- AllDescs
-  InitDescs <- Init10
+  InitDescs <- Init11
   InitFS <- FS0
-  Editable = {"a"}
-  Deletable = {"m", "o1"}
-  Targets <- NodeTargets
-  MaxSteps = 6
-  MaxBuilds = 3
-  MaxEdits = 3
+  Editable = {"h", "a"}
+  Deletable = {"h", "o1"}
+  Targets <- TargetKeys
+  MaxSteps = 8
+  MaxBuilds = 4
+  MaxEdits = 4
   MaxSwitch = 0
   WithDB = {TRUE}
-  SkipSets <- Skip10
 INIT MCInit
 NEXT MCNext
 INVARIANT OutputsClean
